@@ -146,3 +146,32 @@ Proof.
   split; [apply gsub_progress; assumption|].
   destruct (en <=? st) eqn:E; [apply Z.leb_le in E|]; lia.
 Qed.
+
+(* gsub's 4th argument: a non-positive maximum means no replacement at all,
+   in the specification (lstrlib: while (n < max_s)) and in the model of the
+   repaired matching.go (n < 0 is clamped to 0) *)
+Lemma slice_all (s : list Z) : slice s 0 (slen s) = Some s.
+Proof.
+  unfold slice. replace ((0 <=? 0) && (0 <=? slen s) && (slen s <=? slen s)) with true.
+  - simpl skipn. rewrite Z.sub_0_r. unfold slen. rewrite Nat2Z.id. rewrite firstn_all. reflexivity.
+  - symmetry. unfold slen. repeat (apply andb_true_iff; split); apply Z.leb_le; lia.
+Qed.
+
+Theorem gsub_s_nonpositive : forall p s repl n, n <= 0 ->
+  gsub_s p s repl (Some n) = DVals [CStr s; CPos 0].
+Proof.
+  intros p s repl n Hn. unfold gsub_s.
+  replace (2 * S (length s) + 2)%nat with (S (2 * S (length s) + 1))%nat by lia.
+  simpl gsub_sloop. replace (n <=? 0) with true by (symmetry; apply Z.leb_le; lia).
+  rewrite slice_all. reflexivity.
+Qed.
+
+Theorem gsub_im_nonpositive : forall p f s B repl n, n <= 0 ->
+  gsub_im p f s B repl (Some n) = (DVals [CStr s; CPos 0], false).
+Proof.
+  intros p f s B repl n Hn. unfold gsub_im, gsub_n.
+  replace (S (length s) + 2)%nat with (S (length s + 2))%nat by lia.
+  destruct (n <? 0) eqn:E.
+  - simpl. reflexivity.
+  - apply Z.ltb_ge in E. assert (n = 0) by lia. subst. simpl. reflexivity.
+Qed.
